@@ -1,25 +1,25 @@
 SPECIFICATION FairSpec
 CONSTANTS
- Calls = {1, 2}
+ Calls = {1}
  Hosts = {1, 2, 3}
  Hyst = 3
  RetryDelay = 0
  Defect = "none"
- MCCalls = {1, 2}
+ MCCalls = {1}
  Serial = FALSE
- Kinds <- KSr
+ Kinds <- KAll
  Froms <- F1
- Tos <- T2
- Shapes <- ShFull
+ Tos <- T23
+ Shapes <- ShFE
  DelimSets <- DNone
  Ctxs <- CxLive
  NonZero <- BF
- NSOut <- NSRelay
- WErrs <- ENone
- CWRes <- CWOk
- CRRes <- CRNoTO
- SRErrs <- ERelay
- HRes <- HRF
+ NSOut <- NSRelayOther
+ WErrs <- ERelay
+ CWRes <- CWAll
+ CRRes <- CRAll
+ SRErrs <- SRAll
+ HRes <- HMain3
  SWErrs <- ENone
  MaxTime = 0
  Sto = 0
